@@ -125,6 +125,19 @@ def check(chk, repo):
     chk.note("sibling_summary_keys", sorted(a))
     # the unlabeled nodes must be identifiable rows of a pre-computed matrix (same rule as C10's K6)
     from .c10 import check_row_ids
+    borrowed = [e for e in w.events if e.kind == "call" and e.name in ("extend", "append", "__iadd__")
+                and e.target[0] == "attr" and e.target[1] == ("attr", G, "nodes") and e.args
+                and e.args[0][0] == "attr" and e.args[0][2] == "nodes" and e.args[0][1][0] == "new"
+                and e.args[0][1][1] in ("Subgraph", "KNNSubgraph")]
+    for e in borrowed:
+        rep.ev("K6", e, False,
+               "the unlabeled nodes are taken from a separate Subgraph: without an index array their row ids restart at 0 "
+               "and collide with the labelled nodes' ids (rows of a pre-computed matrix are then read for the wrong samples)")
+    if borrowed:
+        return
     check_row_ids(chk, rep, repo, only={"SemiSupervisedOPF.fit"}, floor=1)
     chk.floor("competition loops reachable from SemiSupervisedOPF.fit", len(comps), 2)
+    # every forest is grown through the priority queue: its structural rules are a premise here too
+    from ..rules_heap import check_heap
+    check_heap(rep, repo, "HEAP-")
     chk.undecided.append("optimality of the recorded costs (IFT theorem, as C01)")
